@@ -9,6 +9,7 @@ CONSTANTS
   Reactions <- SomeReactions
   HandlerReconnect = FALSE
   SrvMayStall = FALSE
+  HEAtomic = TRUE
   ShutdownBoth = TRUE
   Fixed = FALSE
   Emit = FALSE
